@@ -12,6 +12,8 @@ only = set(sys.argv[1:])
 WT = os.environ.get("SWEEP_WT")
 TARGET = WT or "/repo"
 ENV = ("VERIF_REPO=%s " % WT) if WT else ""
+# SWEEP_VERIF=<dir>: run the checks of a clone of /verif (its own Coq build), so that /verif stays free for other work
+VH = os.environ.get("SWEEP_VERIF", "/verif")
 if WT:
     sh("git -C /repo worktree remove --force %s; rm -rf %s" % (WT, WT))
     rc0, out0 = sh("git -C /repo worktree add -q --detach %s HEAD" % WT)
@@ -43,7 +45,7 @@ for d in sorted(os.listdir("/verif/seeded")):
     first = ""
     try:
         for chk in [prop] + EXTRA.get(d, []):
-            rc, out = sh("%s/verif/bin/check %s --tier quick 2>/dev/null | grep -E 'VIOLATION|KNOWN-FINDING'" % (ENV, chk))
+            rc, out = sh("%s%s/bin/check %s --tier quick 2>/dev/null | grep -E 'VIOLATION|KNOWN-FINDING'" % (ENV, VH, chk))
             viol = [l for l in out.splitlines() if l.startswith("VIOLATION")]
             if viol:
                 caught_by.append(chk + ("(no-failing-input-found)" if viol[0].endswith("no-failing-input-found") else ""))
